@@ -347,6 +347,7 @@ func TestC13(t *testing.T) {
 	runChain(t, &chainSpec{prop: "C13", pRestart: 4,
 		profile: func() *Profile {
 			p := defaultProfile()
+			p.Crowd, p.CrowdUsers = envInt("VERIF_C13_CROWD", 6), 400
 			p.MinBlocks, p.MaxBlocks = 15, 45
 			p.MaxTxs = 7
 			p.W["withdraw"], p.W["stake"], p.W["unstake"] = 26, 16, 10
